@@ -12,13 +12,40 @@ uint32_t adler32_base(uint32_t init, const unsigned char *buf, uint64_t len);
 #ifndef N
 #error N
 #endif
+#if defined(FLUSHMODE) && !defined(REPLAY)
+#include <wchar.h>
+/* wmemset for CBMC, as in harness/deflate_common/deflate_common.h (reset_match_history is reached in this mode) */
+struct dfl_hw {
+        uint16_t h[IGZIP_LVL0_HASH_SIZE];
+};
+wchar_t *
+wmemset(wchar_t *s, wchar_t c, size_t n)
+{
+        if (n == sizeof(struct dfl_hw) / sizeof(wchar_t) && sizeof(wchar_t) == 4 && (((uint32_t) c) >> 16) == (((uint32_t) c) & 0xffff)) {
+                uint16_t tmp[IGZIP_LVL0_HASH_SIZE];
+                __CPROVER_array_set(tmp, (uint16_t) c);
+                *(struct dfl_hw *) s = *(struct dfl_hw *) tmp;
+        } else {
+                for (size_t i = 0; i < n; i++)
+                        s[i] = c;
+        }
+        return s;
+}
+#endif
 struct inputs {
         uint8_t rep; /* bit 0 selects 0x00 / 0xFF */
 };
 DECLARE_INPUTS
 
 static const int hdr_len[5] = { 0, 10, 0, 2, 0 };
+#ifdef FLUSHMODE
+/* C14 one-shot clause: FULL_FLUSH with end_of_stream = 0 leaves the output byte aligned and UNterminated (no BFINAL
+ * block, no trailer), so that a following call's output can be appended (short runs leave as a plain stored block, so
+ * no 00 00 FF FF marker is required here) */
+static const int trl_len[5] = { 0, 0, 0, 0, 0 };
+#else
 static const int trl_len[5] = { 0, 8, 8, 4, 4 };
+#endif
 
 void
 harness(void)
@@ -32,7 +59,12 @@ harness(void)
         uint8_t *in = malloc(N);
         uint8_t *out = malloc(AVAIL_OUT ? AVAIL_OUT : 1);
         uint8_t *dec = malloc(N);
+#ifdef FLUSHMODE
+        static struct isal_zstream S; /* static object: see wmemset */
+        struct isal_zstream *s = &S;
+#else
         struct isal_zstream *s = malloc(sizeof(*s));
+#endif
         if (!in || !out || !dec || !s)
                 return;
         for (int i = 0; i < N; i++)
@@ -40,8 +72,13 @@ harness(void)
         isal_deflate_stateless_init(s);
         s->level = 0;
         s->gzip_flag = WRAP;
+#ifdef FLUSHMODE
+        s->flush = FULL_FLUSH;
+        s->end_of_stream = 0;
+#else
         s->flush = NO_FLUSH;
         s->end_of_stream = 1;
+#endif
         s->next_in = in;
         s->avail_in = N;
         s->next_out = out;
@@ -50,28 +87,47 @@ harness(void)
         VASSERT(ret == COMP_OK || ret == STATELESS_OVERFLOW, "COMP_OK or STATELESS_OVERFLOW");
         VASSERT(s->total_out <= AVAIL_OUT, "total_out <= avail_out");
         VASSERT(s->next_out == out + s->total_out && s->avail_out == AVAIL_OUT - s->total_out, "output counters consistent");
+#ifdef FLUSHMODE
+        uint32_t bound = N + 5 * (1 + (N - 1) / 65535) + hdr_len[WRAP] + 8 + 5; /* + marker block; generous */
+#else
         uint32_t bound = N + 5 * (1 + (N - 1) / 65535) + hdr_len[WRAP] + trl_len[WRAP];
+#endif
         if (AVAIL_OUT >= bound)
                 VASSERT(ret == COMP_OK, "succeeds whenever avail_out >= documented bound");
         if (ret == COMP_OK) {
                 VASSERT(s->avail_in == 0 && s->total_in == N && s->next_in == in + N, "all input consumed");
+#ifndef FLUSHMODE
                 VASSERT(s->total_out <= bound, "never more than the documented bound");
+#endif
                 struct rfc_res r;
                 uint32_t body = s->total_out - hdr_len[WRAP] - trl_len[WRAP];
                 rfc1951_inflate(out + hdr_len[WRAP], body, 0, dec, N, 0, 0, &r);
+#ifdef FLUSHMODE
+                VASSERT(r.status == RFC_BOUNDARY && !r.saw_final, "FULL_FLUSH, end_of_stream=0: whole blocks, none of them final");
+                VASSERT(r.bit_pos == 8 * (size_t) body, "output ends on a byte boundary at the end of the last block");
+#else
                 VASSERT(r.status == RFC_OK, "reference decoder accepts the stream");
+#endif
                 VASSERT(r.out_len == N, "decoded length == N");
                 for (int i = 0; i < N; i++)
                         VASSERT(dec[i] == v, "decoded bytes == input");
                 VASSERT((r.bit_pos + 7) / 8 == body, "deflate data consumed to its last byte");
                 const uint8_t *t = out + s->total_out - trl_len[WRAP];
+#ifdef FLUSHMODE
+                if (0) {
+#else
                 if (WRAP == 1 || WRAP == 2) {
+#endif
                         uint32_t c = crc32_gzip_refl_base(0, in, N);
                         uint32_t got = t[0] | (t[1] << 8) | (t[2] << 16) | ((uint32_t) t[3] << 24);
                         uint32_t len = t[4] | (t[5] << 8) | (t[6] << 16) | ((uint32_t) t[7] << 24);
                         VASSERT(got == c, "gzip trailer CRC-32 (LE) of the input");
                         VASSERT(len == N, "gzip trailer ISIZE");
+#ifndef FLUSHMODE
                 } else if (WRAP == 3 || WRAP == 4) {
+#else
+                } else if (0) {
+#endif
                         uint32_t a = adler32_base(1, in, N);
                         uint32_t got = ((uint32_t) t[0] << 24) | (t[1] << 16) | (t[2] << 8) | t[3];
                         VASSERT(got == a, "zlib trailer Adler-32 (BE) of the input");
